@@ -102,6 +102,9 @@ type Cfg struct {
 	Evict    int  `json:"evict_permille"`
 	MapOrder int  `json:"map_order"`
 	Scribble bool `json:"scribble"`  // overwrite private input buffers after each call
+	// ScribbleResults: the caller owns what a call returned and writes all over it (up to its
+	// capacity) as soon as it has looked at it - a later call must not notice.
+	ScribbleResults bool `json:"scribble_results,omitempty"`
 	SpareCap bool `json:"spare_cap"` // input slices have canary-filled spare capacity
 	Warm     bool `json:"warm"`      // run the fixed warm-up before the scenario (else cold caches)
 
@@ -111,6 +114,12 @@ type Cfg struct {
 	PCTPoints []int64 `json:"pct_points,omitempty"`
 	SchedSeed uint64  `json:"sched_seed,omitempty"`
 	Budget    int64   `json:"step_budget,omitempty"`
+
+	// Package defaults as a program sets them once at start-up, before any call (the legacy
+	// package has no other way to configure them): AccumulatedCopySizeLimit and, negated so that
+	// the zero value is the package's own default, SupportNegativeIndices.
+	PkgLimit  int64 `json:"pkg_copy_limit,omitempty"`
+	PkgNegOff bool  `json:"pkg_negative_indices_off,omitempty"`
 
 	// Intrude: probability (permille) that an interfering call uses the pool between a Put and
 	// the caller's next instruction (single-task engines).
@@ -185,6 +194,10 @@ func (s *Scenario) ShapeHash() uint64 {
 	wi(int64(s.Cfg.Pool))
 	wi(int64(s.Cfg.MapOrder))
 	wi(int64(s.Cfg.Evict))
+	wi(s.Cfg.PkgLimit)
+	if s.Cfg.PkgNegOff {
+		wi(1)
+	}
 	hc := func(c *Call) {
 		wi(int64(c.Fn))
 		if c.A >= 0 && c.A < len(s.Bufs) {
